@@ -787,4 +787,88 @@ theorem toKids_lookup (id : String) : ∀ (objs : LTy) (env : List (String × Ty
   | oneOf a b _ => intro env h; simp [toTy.toKids] at h
   | scope a b _ => intro env h; simp [toTy.toKids] at h
 
+/-! ### re-application -/
+
+/-- a successful pass is a fixed point of itself: applying the same namespace (same table) again
+    changes nothing and cannot panic -/
+theorem applyNs_idem (w : String) (ns : String) : ∀ (t : LTy) (tbl : Table) (p : Path) (t' : LTy),
+    applyNs w tbl ns p t = .ok t' → applyNs w tbl ns p t' = .ok t' := by
+  intro t
+  induction t with
+  | leaf ty => intro tbl p t' h; simp only [applyNs] at h; cases h; rfl
+  | nil => intro tbl p t' h; simp only [applyNs] at h; cases h; rfl
+  | ref id n link =>
+    intro tbl p t' h
+    simp only [applyNs] at h
+    split at h
+    · rename_i hn; cases h; simp only [applyNs, hn, ↓reduceIte]
+    · rename_i hn
+      split at h
+      · rename_i a ha; cases h; simp only [applyNs, hn, ha]; rfl
+      · cases h
+  | list i ih =>
+    intro tbl p t' h; simp only [applyNs] at h
+    obtain ⟨x, hx, e⟩ := bind_eq_ok h; cases e
+    simp only [applyNs, ih tbl _ x hx]; rfl
+  | map k v ihk ihv =>
+    intro tbl p t' h; simp only [applyNs] at h
+    obtain ⟨x, hx, e⟩ := bind_eq_ok h
+    obtain ⟨y, hy, e2⟩ := bind_eq_ok e; cases e2
+    simp only [applyNs, ihk tbl _ x hx, ihv tbl _ y hy]; rfl
+  | obj id ps ih =>
+    intro tbl p t' h; simp only [applyNs] at h
+    obtain ⟨x, hx, e⟩ := bind_eq_ok h; cases e
+    simp only [applyNs, ih tbl _ x hx]; rfl
+  | oneOf d ms ih =>
+    intro tbl p t' h; simp only [applyNs] at h
+    obtain ⟨x, hx, e⟩ := bind_eq_ok h; cases e
+    simp only [applyNs, ih tbl _ x hx]; rfl
+  | scope objs root ih =>
+    intro tbl p t' h; simp only [applyNs] at h
+    obtain ⟨x, hx, e⟩ := bind_eq_ok h; cases e
+    simp only [applyNs]
+    rw [selfTable_congr (labels_applyNs objs hx), ih _ _ x hx]; rfl
+  | cons l h t ihh iht =>
+    intro tbl p t' hh; simp only [applyNs] at hh
+    obtain ⟨x, hx, e⟩ := bind_eq_ok hh
+    obtain ⟨y, hy, e2⟩ := bind_eq_ok e; cases e2
+    simp only [applyNs, ihh tbl _ x hx, iht tbl _ y hy]; rfl
+
+/-- a fixed point of one pass stays a fixed point of it under passes for other namespaces and under
+    repetitions of the pass itself -/
+theorem fix_preserved (ns : String) (tbl : Table) : ∀ (apps : List (String × Table)) (t r : LTy),
+    applyNs "" tbl ns [] t = .ok t → (∀ b ∈ apps, b.1 = ns → b.2 = tbl) →
+    applySeq apps t = .ok r → applyNs "" tbl ns [] r = .ok r
+  | [], t, r, hfix, _, h => by simp only [applySeq] at h; cases h; exact hfix
+  | (n2, tb2) :: rest, t, r, hfix, hcons, h => by
+    simp only [applySeq] at h
+    obtain ⟨m, hm, e⟩ := bind_eq_ok h
+    have hrest : ∀ b ∈ rest, b.1 = ns → b.2 = tbl := fun b hb => hcons b (List.mem_cons_of_mem _ hb)
+    by_cases hn : n2 = ns
+    · have htb : tb2 = tbl := hcons (n2, tb2) (List.mem_cons_self ..) hn
+      subst hn; subst htb
+      rw [hfix] at hm; cases hm
+      exact fix_preserved n2 tb2 rest t r hfix hrest e
+    · obtain ⟨a', ha1, ha2⟩ := applyNs_comm "" (fun h => hn h.symm) t tbl tb2 [] t m hfix hm
+      rw [hm] at ha1; cases ha1
+      exact fix_preserved ns tbl rest m r ha2 hrest e
+
+/-- after any sequence of passes in which a namespace is always applied with the same table, the
+    tree is a fixed point of every pass of the sequence -/
+theorem applySeq_fix : ∀ (apps : List (String × Table)) (t r : LTy) (ns : String) (tbl : Table),
+    applySeq apps t = .ok r → (ns, tbl) ∈ apps → (∀ b ∈ apps, b.1 = ns → b.2 = tbl) →
+    applyNs "" tbl ns [] r = .ok r
+  | [], _, _, _, _, _, hmem, _ => by cases hmem
+  | (n2, tb2) :: rest, t, r, ns, tbl, h, hmem, hcons => by
+    simp only [applySeq] at h
+    obtain ⟨m, hm, e⟩ := bind_eq_ok h
+    have hrest : ∀ b ∈ rest, b.1 = ns → b.2 = tbl := fun b hb => hcons b (List.mem_cons_of_mem _ hb)
+    by_cases hn : n2 = ns
+    · have htb : tb2 = tbl := hcons (n2, tb2) (List.mem_cons_self ..) hn
+      subst hn; subst htb
+      exact fix_preserved n2 tb2 rest m r (applyNs_idem "" n2 t tb2 [] m hm) hrest e
+    · rcases List.mem_cons.mp hmem with he | hm'
+      · cases he; exact absurd rfl hn
+      · exact applySeq_fix rest m r ns tbl e hm' hrest
+
 end Arca.Link
